@@ -11,6 +11,7 @@
 package pgen
 
 import (
+	"errors"
 	"fmt"
 	"io"
 	"net"
@@ -123,6 +124,17 @@ func viewTok(buf []byte, n int, get func() []byte) (tok string) {
 	return fmt.Sprintf("%d,%d", off, len(v))
 }
 
+// ErrClass: the sentinel a Parse error wraps (never its text).
+func ErrClass(err error) string {
+	switch {
+	case errors.Is(err, packet.ErrFrameLen):
+		return "err:EFrameLen"
+	case errors.Is(err, packet.ErrParseFrame):
+		return "err:EParseFrame"
+	}
+	return "err:EOther"
+}
+
 type Obs struct {
 	C02  string // the projection C02 constrains (also the first part of the C01 line)
 	Full string // C01: C02 line + MAC slice positions + host key
@@ -139,7 +151,8 @@ func Observe(s *packet.Session, buf, p []byte) (o Obs) {
 		return Obs{C02: "panic", Full: "panic"}
 	}
 	if err != nil {
-		return Obs{C02: "err:any", Full: "err:any"}
+		c := ErrClass(err)
+		return Obs{C02: c, Full: c}
 	}
 	n := len(p)
 	addr := func(a packet.Addr) string {
